@@ -191,6 +191,21 @@ def AND(*ts):
             return FALSE
         if x[0] == "or" and all(NOT(d) in out for d in x[1]):
             return FALSE
+    # absorption: (a or b) and a  ==  a ; unit resolution: (a or b) and not a  ==  b and not a
+    out = [x for x in out if not (x[0] == "or" and any(d in out for d in x[1]))]
+    changed = True
+    while changed:
+        changed = False
+        for i, x in enumerate(out):
+            if x[0] == "or":
+                keep = [d for d in x[1] if NOT(d) not in out]
+                if len(keep) < len(x[1]):
+                    repl = OR(*keep)
+                    out = out[:i] + [c for c in (conjuncts(repl) if repl != TRUE else ()) if c not in out] + out[i + 1:]
+                    if repl == FALSE:
+                        return FALSE
+                    changed = True
+                    break
     if not out:
         return TRUE
     if len(out) == 1:
@@ -320,6 +335,7 @@ class Summary:
     vararg: Optional[str] = None
     alloc_comps: Dict[tuple, tuple] = field(default_factory=dict)  # accumulator identity -> the comprehension it was read as
     inlined: List[str] = field(default_factory=list)  # helpers whose bodies were spliced into this summary (transitively)
+    rec_types: Dict[tuple, object] = field(default_factory=dict)  # terms known to be NamedTuple records (class info)
 
     def of(self, kind) -> List[Event]:
         return [e for e in self.events if e.kind == kind]
@@ -396,7 +412,9 @@ class Evaluator:
             if ci is not None and not ci.bases and any(b.split(".")[-1] == "NamedTuple" for b in ci.ext_bases):
                 rv = self._record_values(ci, t)
                 if rv is not None:
-                    return ("tuple", tuple(rv.values()))
+                    tt = ("tuple", tuple(rv.values()))
+                    self.rec_types.setdefault(tt, ci)  # the tuple keeps its record type for attribute access
+                    return tt
         return t
 
     def _record_class_of_annotation(self, ann, module, element=False):
@@ -475,7 +493,7 @@ class Evaluator:
             self._normalise_accumulators()
         return Summary(self.qual, self.module, fn, params, defaults, annotations, self.events, self.loops,
                        self.tries, self.env, fall, self.lambdas, self.nested, self.is_generator, kwarg, vararg,
-                       self.alloc_comps, list(dict.fromkeys(self.inlined)))
+                       self.alloc_comps, list(dict.fromkeys(self.inlined)), dict(self.rec_types))
 
     def _normalise_accumulators(self):
         """`out = []` filled by exactly one `out.append(v)` in a for loop and not otherwise touched until the loop
@@ -1194,7 +1212,7 @@ class Evaluator:
         """field / property `attr` of an opaque value known to be a record of class ci: base[i] / the property's body"""
         fields = [st.target.id for st in ci.node.body if isinstance(st, ast.AnnAssign) and isinstance(st.target, ast.Name)]
         if attr in fields:
-            return ("sub", base, ("const", fields.index(attr)))
+            return sub_const(base, fields.index(attr))
         if attr in ci.methods and len(self.inline_stack) < 4:
             node = pick_def(ci.methods[attr])
             if any(ast.unparse(d) == "property" for d in node.decorator_list):
@@ -2076,6 +2094,9 @@ class Evaluator:
         def inst(t):
             return self._fold_records(fold_sub(subst(_rename_ids(t, idmap, tag), bound)))
 
+        for t_, ci_ in cs.rec_types.items():
+            if t_[0] == "tuple":
+                self.rec_types.setdefault(inst(t_), ci_)
         return cs, inst, idmap, qual
 
     def _fold_records(self, t):
@@ -2133,7 +2154,8 @@ class Evaluator:
             ne.kw_order = e.kw_order  # type: ignore[attr-defined]
         self.events.append(ne)
         if e.kind == "raise" and not e.handlers and not e.loops:
-            self._post.append(NOT(inst(e.live)))
+            # what follows runs unless this raise fired: not (call-site condition and the helper's raise condition)
+            self._post.append(NOT(AND(live, inst(e.live))))
         return ne
 
     def _try_inline(self, f, call_term, live, n, yield_from=False):
